@@ -18,6 +18,17 @@
 #include <unistd.h>
 #include <unordered_set>
 
+#if defined(__SANITIZE_ADDRESS__)
+// sanitizer reports are classified by exit code 77 (see classify_death)
+extern "C" __attribute__((used)) const char *__asan_default_options() {
+  return "exitcode=77:detect_leaks=0:abort_on_error=0:allocator_may_return_"
+         "null=1:detect_stack_use_after_return=0";
+}
+extern "C" __attribute__((used)) const char *__ubsan_default_options() {
+  return "halt_on_error=1:exitcode=77:print_stacktrace=0";
+}
+#endif
+
 namespace detsim {
 
 double wall_now() {
@@ -422,12 +433,21 @@ static std::vector< Known > load_known(const std::string &property) {
 
 static const Known *match_known(const std::vector< Known > &known,
                                 const std::string &vclass,
-                                const Json &signature) {
+                                const Json &signature,
+                                const std::string &message = "") {
   for (auto &k : known) {
     if (k.vclass != vclass)
       continue;
     bool ok = true;
     for (auto &kv : k.match.o) {
+      if (kv.first == "message_contains") {
+        // call-site match (sanitizer reports, cmac_error messages)
+        if (message.find(kv.second.as_string()) == std::string::npos)
+          ok = false;
+        if (!ok)
+          break;
+        continue;
+      }
       if (!signature.has(kv.first) ||
           signature.at(kv.first).dump() != kv.second.dump()) {
         ok = false;
@@ -454,7 +474,7 @@ static bool same_violation(const Outcome &o, const std::string &vclass,
                            bool was_known) {
   if (family(o.vclass) != family(vclass))
     return false;
-  bool k = match_known(known, o.vclass, o.signature) != nullptr;
+  bool k = match_known(known, o.vclass, o.signature, o.message) != nullptr;
   return k == was_known;
 }
 
@@ -566,7 +586,7 @@ static int do_replay(Engine &engine, const std::string &path) {
            want.c_str(), (unsigned long long)want_hash);
   }
   std::vector< Known > known = load_known(engine.property());
-  const Known *k = match_known(known, o.vclass, o.signature);
+  const Known *k = match_known(known, o.vclass, o.signature, o.message);
   if (k) {
     printf("KNOWN-FINDING: property=%s %s\n", engine.property().c_str(),
            k->what.c_str());
@@ -887,7 +907,7 @@ int check_main(int argc, char **argv, Engine &engine) {
       nondeterministic = true;
       continue;
     }
-    const Known *k = match_known(known, v.vclass, o1.signature);
+    const Known *k = match_known(known, o1.vclass, o1.signature, o1.message);
     if (k) {
       if (!known_printed.count(k->id)) {
         printf("KNOWN-FINDING: property=%s %s (seen %llu times, e.g. run "
@@ -914,10 +934,18 @@ int check_main(int argc, char **argv, Engine &engine) {
     std::string rdir = verif_root() + "/replays";
     mkdir(rdir.c_str(), 0755);
     char rp[512];
-    snprintf(rp, sizeof rp, "%s/%s-%llu-%llu.json", rdir.c_str(), prop.c_str(),
-             (unsigned long long)seed, (unsigned long long)v.index);
+    const char *partname = getenv("VERIF_EVIDENCE_PART");
+    if (partname && *partname)
+      snprintf(rp, sizeof rp, "%s/%s-%s-%llu-%llu.json", rdir.c_str(),
+               prop.c_str(), partname, (unsigned long long)seed,
+               (unsigned long long)v.index);
+    else
+      snprintf(rp, sizeof rp, "%s/%s-%llu-%llu.json", rdir.c_str(),
+               prop.c_str(), (unsigned long long)seed,
+               (unsigned long long)v.index);
     Json rf = Json::object();
     rf["property"] = prop;
+    rf["engine_part"] = std::string(partname ? partname : "");
     rf["vclass"] = last.vclass;
     rf["message"] = last.message;
     rf["hash"] = Json(std::to_string(last.hash));
@@ -1015,7 +1043,13 @@ int check_main(int argc, char **argv, Engine &engine) {
   ev["violations"] = (long long)unlisted;
   std::string edir = verif_root() + "/evidence";
   mkdir(edir.c_str(), 0755);
-  ev.write_file(edir + "/" + prop + ".json");
+  // a property decided by several engines: each writes a part file, the
+  // check script merges them (tools/merge_evidence.py)
+  const char *part = getenv("VERIF_EVIDENCE_PART");
+  if (part && *part)
+    ev.write_file(edir + "/" + prop + ".part." + part + ".json");
+  else
+    ev.write_file(edir + "/" + prop + ".json");
 
   printf("check %s: %llu runs in %.1f s (%.0f runs/h), %zu distinct event "
          "logs (%zu non-trivial), violations=%llu known=%zu exit=%d\n",
